@@ -43,6 +43,9 @@ func WriteBlockTo(enc *StrListEncoder, w io.Writer, blk [][]string) (int64, erro
 	}
 	var total int64 = 4
 	for _, line := range blk {
+		if err := CheckStrListLen(line); err != nil {
+			return 0, err
+		}
 		b := enc.Encode(line)
 		m, err := w.Write(b)
 		if err != nil {
